@@ -497,7 +497,7 @@ pub fn run(args: &Args) {
     let mut rep = Report::new(args, Level::ModelChecking);
     let stats = Stats::default();
     let scratch = mcx::Scratch::new("c13");
-    let deadline = mcx::Deadline::after_secs(if quick { 40 } else { 900 });
+    let deadline = mcx::Deadline::after_secs(if quick { 40 } else { 1100 });
     let mut spaces = Vec::new();
     let mut states = 0;
     let mut transitions = 0;
@@ -515,7 +515,6 @@ pub fn run(args: &Args) {
             (&space, 6, false, &[Base::Fresh]),
             (&narrow, 8, false, &[Base::Fresh]),
             (&space, 6, false, &[Base::Mid]),
-            (&narrow, 8, false, &[Base::Mid]),
         ]
     };
     for (sp, depth, with_file, bases) in plan {
